@@ -191,6 +191,10 @@ def concretize(case, shell, rng, dirs, kinds):
             xs[2], vals[2] = "sockets." + n, str(socks[n])
     if not noenv and rng.random() < 0.3:
         env["C13_EXTRA"] = rng.choice(["1", "", "x y", "a=b", "'q'"])
+    # copy_path (only together with copy_env): PYTHONPATH = the daemon's sys.path, unless env configures its own
+    copy_path = copy_env and rng.random() < 0.3
+    if copy_path and rng.random() < 0.5:
+        env["PYTHONPATH"] = rng.choice([dirs["plain"], "/nonexistent/c13-a:/nonexistent/c13-b"])
     if noenv:
         env = None                       # no env given and copy_env off: Watcher.env is None
     elif not env and not copy_env and not uenv_cmd and rng.random() < 0.6:
@@ -260,7 +264,7 @@ def concretize(case, shell, rng, dirs, kinds):
     for alt in case["alts"]:
         by_devs["+".join(sorted(alt["devs"]))] = vectors(alt)
     return {"name": rng.choice(["w", "Web 1", "c13"]), "cmd": cmd, "args": args, "shell": shell, "env": env,
-            "copy_env": copy_env, "working_dir": wd, "numprocesses": nproc, "wid": wid, "sockets": socks,
+            "copy_env": copy_env, "copy_path": copy_path, "working_dir": wd, "numprocesses": nproc, "wid": wid, "sockets": socks,
             "max_retry": max_retry, "priority": priority, "devs": sorted(case["devs"]), "by_devs": by_devs,
             "abstract": {"cmd": case["cmd"], "ak": case["ak"], "args": case["args"], "noenv": noenv}}
 
@@ -279,6 +283,7 @@ def build_watcher(c, cmd=None):
     w = circus.watcher.Watcher(c["name"], c["cmd"] if cmd is None else cmd, args=c["args"],
                                numprocesses=c["numprocesses"], working_dir=c["working_dir"], shell=c["shell"],
                                env=None if c["env"] is None else dict(c["env"]), copy_env=c["copy_env"],
+                               copy_path=c.get("copy_path", False),
                                max_retry=c["max_retry"], priority=c["priority"], loop=_Loop())
     if c["sockets"] is not None:
         w.sockets = {n: _Sock(fd) for n, fd in c["sockets"].items()}
@@ -288,6 +293,8 @@ def build_watcher(c, cmd=None):
 def configured_env(c):
     """'exactly the configured environment': env, on top of the daemon's own environment with copy_env."""
     e = dict(os.environ) if c["copy_env"] else {}
+    if c.get("copy_path"):
+        e["PYTHONPATH"] = os.pathsep.join(sys.path)
     e.update(c["env"] or {})
     return e
 
